@@ -37,7 +37,7 @@ claim("C12",
  "Bounded symbolic model checking of the proof glue the node owns: blob Proof.equal on two arbitrary proofs (0..2 entries, nil entries, 0..2 nodes, symbolic ranges and bytes) answers nil exactly for structurally equal proofs and never panics; GetRangeResult.Verify on arbitrary results (missing proof, 0..3 data entries of 511..513 symbolic bytes) answers nil only when the shares handed out are byte-for-byte the proven data; data-root-tuple proofs for arbitrary 64-bit height/start/end/head pick leaf height-start among exactly end-start leaves whose encoding carries the height in the last 8 of 32 bytes for every 64-bit height. Library proof verification (nmt, merkle, cometbft) is an ideal verdict.",
  "symbolic execution of go/ssa + SMT over arbitrary proof/result values, ideal verdict stubs for library verification, native replay where no stub is involved",
  "DESIGN.md 6/C12",
- "Not covered yet: CommitmentProof.Verify cursor arithmetic and Service.Included's derivation of its own proof.")
+ "CommitmentProof.Verify on arbitrary proof shapes (0..3 subtree roots, 0..2 subtree-root proofs over share ranges, 0..2 row roots / row proofs, arbitrary 32-bit StartRow/EndRow, real celestia-app RowProof.Validate, nmt.ToLeafRanges and SubTreeWidth; Merkle/NMT verdicts ideal): accepted only if well-formed without 32-bit wrap-around, commitment = hash of all subtree roots, every row root proven under the data root and every subtree root checked once, in order, against its own row. Not covered: Service.Included's derivation of its own proof.")
 
 claim("C04",
  "Bounded model checking of the real DASer coordinator loop and workers executed symbolically under a controlled scheduler: from an arbitrary 64-bit starting height, for every sequence of up to 2 events (new head / checkpoint request), every per-height sampling outcome and every schedule within the delay bound, each checkpoint the coordinator hands out covers every height in [start, head] that was not sampled (as catch-up cursor, failed entry or resumable worker), proven pointwise for a free symbolic height by the solver. The in-flight-recent-job loss needs a checkpoint between two coordinator events, which the existing tests never schedule.",
